@@ -48,7 +48,7 @@ def gen_case(seed, idx):
     if rnd.random() < .3:
         ops.append(("add", nreg, "late", 8, None))
         nreg += 1
-    return {"aw": aw, "dw": dw, "gran": gran, "ops": ops, "nreg": nreg}
+    return {"aw": aw, "dw": dw, "gran": gran, "ops": ops, "nreg": nreg, "seed": seed, "idx": idx}
 
 
 def clog2(n):
@@ -61,6 +61,7 @@ def run_impl(case):
     regs, widths = {}, {}
     lines, obs, fails = [f"case {aw} {dw} {gran}"], [], []
     stats = {"ops": 0, "refused": 0, "explicit": 0, "implicit_after_explicit": 0, "scoped": 0, "asmap_refused": 0, "regs_placed": 0}
+    unwind_rnd = lib.rng_for(case.get("seed", 0), case.get("idx", 0), 1718)
     stack = []          # entered context managers (None for refused scopes)
     scope = []
     accepted = []       # (rid, name tuple, width, offset) in insertion order — the oracle's view
@@ -84,9 +85,23 @@ def run_impl(case):
                 accepted.append((rid, tuple(scope) + (nm,), widths[rid], off))
                 if frozen:
                     fails.append(("C17", "frozen builder accepted a register", len(obs)))
-            except (ValueError, TypeError):
+            except (ValueError, TypeError) as ex:
                 obs.append("refused")
                 stats["refused"] += 1
+                if stack and any(cm is not None for cm in stack) and unwind_rnd.random() < 0.35:
+                    # the exception leaves the enclosing `with` blocks (the caller catches it outside):
+                    # every open scope must be closed on the way out
+                    stats["unwinds"] = stats.get("unwinds", 0) + 1
+                    while stack:
+                        cm = stack.pop()
+                        if cm is not None:
+                            try:
+                                cm.__exit__(type(ex), ex, ex.__traceback__)
+                            except Exception:
+                                pass
+                            scope.pop()
+                            lines.append("exit")
+                            obs.append("ok")
         elif k == "cluster":
             lines.append(f"cluster {op[1]}")
             try:
@@ -104,6 +119,8 @@ def run_impl(case):
             except (ValueError, TypeError):
                 stack.append(None); obs.append("refused")
         elif k == "exit":
+            if not stack:
+                continue
             cm = stack.pop()
             if cm is not None:
                 lines.append("exit")
